@@ -18,6 +18,8 @@ func main() {
 	debug.SetMemoryLimit(3 << 30)
 	a := common.Args(os.Args[2:])
 	switch os.Args[1] {
+	case "histcorpus":
+		histCorpus(a)
 	case "hist":
 		hist(a)
 	case "one":
